@@ -143,21 +143,16 @@ def rule_admit_live(ctx):
                    'where a lookup of the op\'s key in the map returned an entry that is identity-compared with the op\'s entry: an op whose '
                    'entry already left the map is never admitted')
     prog = ctx.prog
-    up = [n for n, b in prog.bodies.items() if n.startswith(SYNC_INNER + '::') and b.kind != 'closure' and
-          sum(1 for l in b.locals[1:b.argc + 1] if l.get('name') in ('old_weight', 'new_weight')) == 2]
-    if not up:
+    from .roles import upsert_role
+    ur = upsert_role(ctx)
+    if not ur:
         if any(n.startswith('sync::') for n in prog.bodies):
             raise CheckFailure('MUST-admit-live: upsert role not found')
         return r
-    nid = up[0]
+    nid = ur['nid']
     b = prog.bodies[nid]
-    entry_p = None
-    key_p = None
-    for i, l in enumerate(b.locals[:b.argc + 1]):
-        if i and 'ValueEntry' in l['ty']['s']:
-            entry_p = ('param', i)
-        if i and 'KeyHash' in l['ty']['s']:
-            key_p = ('param', i)
+    entry_p = ('param', ur['entry'])
+    key_p = ('param', ur['key']) if ur.get('key') else None
     sx = ctx.symex(inline_depth=3, loop_visits=2, inline_pred=lambda n, bb, d: False if 'handle_remove' in n else None)
     try:
         paths = [p for p in sx.run(nid) if not p.diverged]
